@@ -55,9 +55,9 @@ def req_lines(kind):
 
 
 EVENTS_QUICK = ['okE/c', 'okH/c', 'okA/c', 'okD/c', 'okU/c', 'okX/c', 'okDef/c', 'okOdd/c', 'okS/c', 'hip', 'failR/c', 'failC/c', 'failP/c', 'failX/c', 'rewrite/c',
-                'rewrite:failX/c', 'okE/n']
+                'rewrite:failX/c', 'rewrite@same/c', 'rewrite@older/c', 'okE/n']
 EVENTS_L3 = ['okOdd/c', 'okDef/c', 'okU/c', 'failX/c', 'rewrite/c', 'rewrite:failX/c']
-EVENTS_THOROUGH = EVENTS_QUICK + ['okD2/c', 'failR/n', 'okH/n', 'rewrite:failR/c', 'okDef/n']
+EVENTS_THOROUGH = EVENTS_QUICK + ['okD2/c', 'failR/n', 'okH/n', 'rewrite:failR/c', 'okDef/n', 'rewrite:failX@same/c', 'rewrite@same/n']
 
 
 def strip(text):
@@ -97,22 +97,29 @@ def replay_history(arg):
             else:
                 if kind.startswith('rewrite'):
                     # overwrite the file behind the last requested path with other content and ask the same client again
-                    wanted = kind.partition(':')[2]
+                    # rewrite[:<content>][@same|@older]: the modification time the rewritten file ends up with is an environment answer
+                    # (cp -p, rsync -t, archive extraction and os.replace of a file prepared earlier all give a time that is not newer)
+                    wanted, _, when = kind.partition(':')[2].partition('@') if ':' in kind else ('',) + kind.partition('@')[1:]
                     content_kind = wanted or ('okH' if last['kind'] != 'okH' else 'okE')
                     if last['path'] is None:
                         n_files['i'] += 1
                         last['path'] = str(sim.write_input(req_lines('okE'), name=f'r{n_files["i"]}.txt'))
                         clients['c'].get_geophires_result(GeophiresInputParameters(from_file_path=last['path']))
+                    st_before = os.stat(last['path'])
                     with open(last['path'], 'w', encoding='UTF-8') as f:
                         f.write('\n'.join(req_lines(content_kind)) + '\n')
+                    if when == 'same':
+                        os.utime(last['path'], ns=(st_before.st_atime_ns, st_before.st_mtime_ns))
+                    elif when == 'older':
+                        os.utime(last['path'], ns=(st_before.st_atime_ns, st_before.st_mtime_ns - 10 * 10 ** 9))
                     path = last['path']
-                    mode = 'c'
+                    mode = mode if mode in ('c', 'n') else 'c'
                 else:
                     n_files['i'] += 1
                     path = str(sim.write_input(req_lines(kind), name=f'r{n_files["i"]}.txt'))
                 rec['content_kind'] = content_kind
                 params = GeophiresInputParameters(from_file_path=path)
-                if mode == 'c':
+                if mode == 'c' or kind.startswith('rewrite'):
                     last['path'], last['kind'] = path, content_kind
                 result = clients[mode].get_geophires_result(params)
                 # the returned object's own (parsed) content is what the caller is given; its report file may since have been
@@ -304,11 +311,11 @@ def run(tier, seed, budget=None):
     mod = sys.modules[__name__]
     r = e1.run_generic(
         mod, PID, tier, seed, budget,
-        rule=('explicit-state search over request histories, each replayed in one real process: quick = ALL histories of length <= 2 over 17 events '
+        rule=('explicit-state search over request histories, each replayed in one real process: quick = ALL histories of length <= 2 over 19 events '
               '(9 successful GEOPHIRES requests incl. add-ons, district heating, input units, output-unit directives, an all-defaults request, a many-non-defaults '
               'request and a closed-loop (SBT) request; HIP-RA-X; 4 failing requests that fail while reading / calculating / printing / through a bare sys.exit(); rewrite-the-file-with-other-content '
-              '(succeeding or aborting)-and-ask-again; a non-caching client) plus ALL histories of length 3 over 6 events; thorough = all histories of length <= 3 '
-              'over 22 events + pruned depth 4; starting directory alternates. References: each request alone '
+              '(succeeding or aborting; modification time newer, unchanged or older)-and-ask-again; a non-caching client) plus ALL histories of length 3 over 6 events; thorough = all histories of length <= 3 '
+              'over 26 events + pruned depth 4; starting directory alternates. References: each request alone '
               'in pristine interpreters under PYTHONHASHSEED 0/1/12345 and two directories. States = digest of the process-state vector after the history'),
         assumptions=['functools memo tables are pure caches and excluded from the state comparison (reported in evidence)',
                      'result equality is on the complete parsed content of the returned result object (all categories and profile tables; metadata with paths/clock excluded) and on the full report text for HIP-RA-X'],
